@@ -91,12 +91,12 @@ Conc/InterleaveCheck.vos Conc/InterleaveCheck.vok Conc/InterleaveCheck.required_
 Conc/InterleaveProofs.vo Conc/InterleaveProofs.glob Conc/InterleaveProofs.v.beautified Conc/InterleaveProofs.required_vo: Conc/InterleaveProofs.v Gen/ConcGen.vo Conc/Interleave.vo
 Conc/InterleaveProofs.vio: Conc/InterleaveProofs.v Gen/ConcGen.vio Conc/Interleave.vio
 Conc/InterleaveProofs.vos Conc/InterleaveProofs.vok Conc/InterleaveProofs.required_vos: Conc/InterleaveProofs.v Gen/ConcGen.vos Conc/Interleave.vos
-Cond/Check.vo Cond/Check.glob Cond/Check.v.beautified Cond/Check.required_vo: Cond/Check.v Cond/Syntax.vo Cond/Sem.vo Cond/Quirks.vo Cond/RuleSet.vo Cond/Machine.vo Cond/Emit.vo
-Cond/Check.vio: Cond/Check.v Cond/Syntax.vio Cond/Sem.vio Cond/Quirks.vio Cond/RuleSet.vio Cond/Machine.vio Cond/Emit.vio
-Cond/Check.vos Cond/Check.vok Cond/Check.required_vos: Cond/Check.v Cond/Syntax.vos Cond/Sem.vos Cond/Quirks.vos Cond/RuleSet.vos Cond/Machine.vos Cond/Emit.vos
-Cond/Emit.vo Cond/Emit.glob Cond/Emit.v.beautified Cond/Emit.required_vo: Cond/Emit.v Cond/Syntax.vo Cond/Sem.vo Cond/Quirks.vo Cond/Machine.vo
-Cond/Emit.vio: Cond/Emit.v Cond/Syntax.vio Cond/Sem.vio Cond/Quirks.vio Cond/Machine.vio
-Cond/Emit.vos Cond/Emit.vok Cond/Emit.required_vos: Cond/Emit.v Cond/Syntax.vos Cond/Sem.vos Cond/Quirks.vos Cond/Machine.vos
+Cond/Check.vo Cond/Check.glob Cond/Check.v.beautified Cond/Check.required_vo: Cond/Check.v Cond/Syntax.vo Cond/Sem.vo Cond/Quirks.vo Cond/RuleSet.vo Cond/Machine.vo Cond/Emit.vo Cond/IrTree.vo
+Cond/Check.vio: Cond/Check.v Cond/Syntax.vio Cond/Sem.vio Cond/Quirks.vio Cond/RuleSet.vio Cond/Machine.vio Cond/Emit.vio Cond/IrTree.vio
+Cond/Check.vos Cond/Check.vok Cond/Check.required_vos: Cond/Check.v Cond/Syntax.vos Cond/Sem.vos Cond/Quirks.vos Cond/RuleSet.vos Cond/Machine.vos Cond/Emit.vos Cond/IrTree.vos
+Cond/Emit.vo Cond/Emit.glob Cond/Emit.v.beautified Cond/Emit.required_vo: Cond/Emit.v Cond/Syntax.vo Cond/Sem.vo Cond/Quirks.vo Cond/Machine.vo Gen/EmitFacts.vo
+Cond/Emit.vio: Cond/Emit.v Cond/Syntax.vio Cond/Sem.vio Cond/Quirks.vio Cond/Machine.vio Gen/EmitFacts.vio
+Cond/Emit.vos Cond/Emit.vok Cond/Emit.required_vos: Cond/Emit.v Cond/Syntax.vos Cond/Sem.vos Cond/Quirks.vos Cond/Machine.vos Gen/EmitFacts.vos
 Cond/EmitBase.vo Cond/EmitBase.glob Cond/EmitBase.v.beautified Cond/EmitBase.required_vo: Cond/EmitBase.v Cond/Syntax.vo Cond/Sem.vo Cond/Quirks.vo Cond/Machine.vo Cond/MachineProofs.vo Cond/Emit.vo
 Cond/EmitBase.vio: Cond/EmitBase.v Cond/Syntax.vio Cond/Sem.vio Cond/Quirks.vio Cond/Machine.vio Cond/MachineProofs.vio Cond/Emit.vio
 Cond/EmitBase.vos Cond/EmitBase.vok Cond/EmitBase.required_vos: Cond/EmitBase.v Cond/Syntax.vos Cond/Sem.vos Cond/Quirks.vos Cond/Machine.vos Cond/MachineProofs.vos Cond/Emit.vos
@@ -127,6 +127,9 @@ Cond/Independence.vos Cond/Independence.vok Cond/Independence.required_vos: Cond
 Cond/IndependenceProofs.vo Cond/IndependenceProofs.glob Cond/IndependenceProofs.v.beautified Cond/IndependenceProofs.required_vo: Cond/IndependenceProofs.v Cond/Syntax.vo Cond/Sem.vo Cond/Rename.vo Cond/SemProofs.vo Cond/Independence.vo
 Cond/IndependenceProofs.vio: Cond/IndependenceProofs.v Cond/Syntax.vio Cond/Sem.vio Cond/Rename.vio Cond/SemProofs.vio Cond/Independence.vio
 Cond/IndependenceProofs.vos Cond/IndependenceProofs.vok Cond/IndependenceProofs.required_vos: Cond/IndependenceProofs.v Cond/Syntax.vos Cond/Sem.vos Cond/Rename.vos Cond/SemProofs.vos Cond/Independence.vos
+Cond/IrTree.vo Cond/IrTree.glob Cond/IrTree.v.beautified Cond/IrTree.required_vo: Cond/IrTree.v Cond/Syntax.vo Cond/Sem.vo Cond/Quirks.vo Gen/EmitFacts.vo
+Cond/IrTree.vio: Cond/IrTree.v Cond/Syntax.vio Cond/Sem.vio Cond/Quirks.vio Gen/EmitFacts.vio
+Cond/IrTree.vos Cond/IrTree.vok Cond/IrTree.required_vos: Cond/IrTree.v Cond/Syntax.vos Cond/Sem.vos Cond/Quirks.vos Gen/EmitFacts.vos
 Cond/Machine.vo Cond/Machine.glob Cond/Machine.v.beautified Cond/Machine.required_vo: Cond/Machine.v 
 Cond/Machine.vio: Cond/Machine.v 
 Cond/Machine.vos Cond/Machine.vok Cond/Machine.required_vos: Cond/Machine.v 
@@ -238,6 +241,9 @@ Gen/ConcGen.vos Gen/ConcGen.vok Gen/ConcGen.required_vos: Gen/ConcGen.v
 Gen/DocPrecedence.vo Gen/DocPrecedence.glob Gen/DocPrecedence.v.beautified Gen/DocPrecedence.required_vo: Gen/DocPrecedence.v 
 Gen/DocPrecedence.vio: Gen/DocPrecedence.v 
 Gen/DocPrecedence.vos Gen/DocPrecedence.vok Gen/DocPrecedence.required_vos: Gen/DocPrecedence.v 
+Gen/EmitFacts.vo Gen/EmitFacts.glob Gen/EmitFacts.v.beautified Gen/EmitFacts.required_vo: Gen/EmitFacts.v Cond/Machine.vo
+Gen/EmitFacts.vio: Gen/EmitFacts.v Cond/Machine.vio
+Gen/EmitFacts.vos Gen/EmitFacts.vok Gen/EmitFacts.required_vos: Gen/EmitFacts.v Cond/Machine.vos
 Gen/FastScanGen.vo Gen/FastScanGen.glob Gen/FastScanGen.v.beautified Gen/FastScanGen.required_vo: Gen/FastScanGen.v 
 Gen/FastScanGen.vio: Gen/FastScanGen.v 
 Gen/FastScanGen.vos Gen/FastScanGen.vok Gen/FastScanGen.required_vos: Gen/FastScanGen.v 
@@ -373,6 +379,9 @@ Parser/TokenizerProofs.vos Parser/TokenizerProofs.vok Parser/TokenizerProofs.req
 Pat/Atoms.vo Pat/Atoms.glob Pat/Atoms.v.beautified Pat/Atoms.required_vo: Pat/Atoms.v Pat/Syntax.vo Pat/Sem.vo Pat/Matcher.vo Pat/Modifiers.vo Pat/Base64.vo
 Pat/Atoms.vio: Pat/Atoms.v Pat/Syntax.vio Pat/Sem.vio Pat/Matcher.vio Pat/Modifiers.vio Pat/Base64.vio
 Pat/Atoms.vos Pat/Atoms.vok Pat/Atoms.required_vos: Pat/Atoms.v Pat/Syntax.vos Pat/Sem.vos Pat/Matcher.vos Pat/Modifiers.vos Pat/Base64.vos
+Pat/AtomsProofs.vo Pat/AtomsProofs.glob Pat/AtomsProofs.v.beautified Pat/AtomsProofs.required_vo: Pat/AtomsProofs.v Pat/Syntax.vo Pat/Sem.vo Pat/Matcher.vo Pat/Modifiers.vo Pat/ModifiersProofs.vo Pat/Base64.vo Pat/Atoms.vo
+Pat/AtomsProofs.vio: Pat/AtomsProofs.v Pat/Syntax.vio Pat/Sem.vio Pat/Matcher.vio Pat/Modifiers.vio Pat/ModifiersProofs.vio Pat/Base64.vio Pat/Atoms.vio
+Pat/AtomsProofs.vos Pat/AtomsProofs.vok Pat/AtomsProofs.required_vos: Pat/AtomsProofs.v Pat/Syntax.vos Pat/Sem.vos Pat/Matcher.vos Pat/Modifiers.vos Pat/ModifiersProofs.vos Pat/Base64.vos Pat/Atoms.vos
 Pat/Base64.vo Pat/Base64.glob Pat/Base64.v.beautified Pat/Base64.required_vo: Pat/Base64.v Pat/Syntax.vo Pat/Modifiers.vo
 Pat/Base64.vio: Pat/Base64.v Pat/Syntax.vio Pat/Modifiers.vio
 Pat/Base64.vos Pat/Base64.vok Pat/Base64.required_vos: Pat/Base64.v Pat/Syntax.vos Pat/Modifiers.vos
@@ -421,6 +430,9 @@ Pat/ModifiersProofs.vos Pat/ModifiersProofs.vok Pat/ModifiersProofs.required_vos
 Pat/Pipeline.vo Pat/Pipeline.glob Pat/Pipeline.v.beautified Pat/Pipeline.required_vo: Pat/Pipeline.v Pat/Syntax.vo Pat/Sem.vo Pat/Matcher.vo Pat/Modifiers.vo Pat/Base64.vo Pat/MatchList.vo Pat/Atoms.vo
 Pat/Pipeline.vio: Pat/Pipeline.v Pat/Syntax.vio Pat/Sem.vio Pat/Matcher.vio Pat/Modifiers.vio Pat/Base64.vio Pat/MatchList.vio Pat/Atoms.vio
 Pat/Pipeline.vos Pat/Pipeline.vok Pat/Pipeline.required_vos: Pat/Pipeline.v Pat/Syntax.vos Pat/Sem.vos Pat/Matcher.vos Pat/Modifiers.vos Pat/Base64.vos Pat/MatchList.vos Pat/Atoms.vos
+Pat/PipelineB64Proofs.vo Pat/PipelineB64Proofs.glob Pat/PipelineB64Proofs.v.beautified Pat/PipelineB64Proofs.required_vo: Pat/PipelineB64Proofs.v Pat/Syntax.vo Pat/Sem.vo Pat/Matcher.vo Pat/Modifiers.vo Pat/ModifiersProofs.vo Pat/Base64.vo Pat/MatchList.vo Pat/Atoms.vo Pat/Pipeline.vo Pat/PipelineProofs.vo
+Pat/PipelineB64Proofs.vio: Pat/PipelineB64Proofs.v Pat/Syntax.vio Pat/Sem.vio Pat/Matcher.vio Pat/Modifiers.vio Pat/ModifiersProofs.vio Pat/Base64.vio Pat/MatchList.vio Pat/Atoms.vio Pat/Pipeline.vio Pat/PipelineProofs.vio
+Pat/PipelineB64Proofs.vos Pat/PipelineB64Proofs.vok Pat/PipelineB64Proofs.required_vos: Pat/PipelineB64Proofs.v Pat/Syntax.vos Pat/Sem.vos Pat/Matcher.vos Pat/Modifiers.vos Pat/ModifiersProofs.vos Pat/Base64.vos Pat/MatchList.vos Pat/Atoms.vos Pat/Pipeline.vos Pat/PipelineProofs.vos
 Pat/PipelineProofs.vo Pat/PipelineProofs.glob Pat/PipelineProofs.v.beautified Pat/PipelineProofs.required_vo: Pat/PipelineProofs.v Pat/Syntax.vo Pat/Sem.vo Pat/Matcher.vo Pat/MatcherProofs.vo Pat/Modifiers.vo Pat/ModifiersProofs.vo Pat/Base64.vo Pat/MatchList.vo Pat/MatchListProofs.vo Pat/Atoms.vo Pat/Pipeline.vo
 Pat/PipelineProofs.vio: Pat/PipelineProofs.v Pat/Syntax.vio Pat/Sem.vio Pat/Matcher.vio Pat/MatcherProofs.vio Pat/Modifiers.vio Pat/ModifiersProofs.vio Pat/Base64.vio Pat/MatchList.vio Pat/MatchListProofs.vio Pat/Atoms.vio Pat/Pipeline.vio
 Pat/PipelineProofs.vos Pat/PipelineProofs.vok Pat/PipelineProofs.required_vos: Pat/PipelineProofs.v Pat/Syntax.vos Pat/Sem.vos Pat/Matcher.vos Pat/MatcherProofs.vos Pat/Modifiers.vos Pat/ModifiersProofs.vos Pat/Base64.vos Pat/MatchList.vos Pat/MatchListProofs.vos Pat/Atoms.vos Pat/Pipeline.vos
